@@ -132,6 +132,7 @@ func (s *Server) servePacket(pc net.PacketConn) error {
 			if addr := closed.addr.String(); udpConns[addr] == closed {
 				delete(udpConns, addr)
 			}
+			verifEv("udp.loop.notice", closed)
 
 		case pkt := <-packets:
 			if pkt.err != nil {
@@ -169,6 +170,7 @@ func (s *Server) servePacket(pc net.PacketConn) error {
 				select {
 				case conn.readCh <- &pkt:
 					delivered = true
+					verifEv("udp.loop.sent", conn)
 				case <-conn.done:
 					// closed while we were waiting; hand the packet to a new connection
 				}
@@ -350,6 +352,7 @@ func (pc *packetConn) Read(b []byte) (n int, err error) {
 	// Although Close() also does this, we inform the server loop early about
 	// the closure to ensure that if any new packets are received from this
 	// connection in the meantime, a new handler will be started.
+	verifEv("udp.idle", pc)
 	pc.closeCh <- pc
 	// Returning EOF here ensures that io.Copy() waiting on the downstream for
 	// reads will terminate.
@@ -378,9 +381,11 @@ func (pc *packetConn) Close() error {
 				drained = true
 			}
 		}
+		verifEv("udp.close.closed", pc)
 		// We may have already done this earlier in Read(), but just in case
 		// Read() wasn't being called, (re-)notify server loop we're closed.
 		pc.closeCh <- pc
+		verifEv("udp.close.notified", pc)
 	})
 	// We don't call net.PacketConn.Close() here as we would stop the UDP
 	// server.
